@@ -1181,3 +1181,102 @@ def forward_single_cell(tree):
                 own_ids.add(id(new))
                 total += 1
     return total
+
+
+# ------------------------------------------------------------------------------------------------ I. private read-only properties
+def properties_to_methods(tree, anchors, foreign):
+    """``@property`` / ``def _p(self): ..`` of a module-level class, read as ``self._p``  ->  the plain method ``def _p(self)`` read as
+    ``self._p()`` (a private helper method like any other: the inliner then puts the getter's statements where the value is read).
+
+    The two spellings are the same program when nothing but such reads can name the attribute: the name is private, no other module of
+    the tree mentions it, the module defines it once (the getter: no setter / deleter, no class attribute, no instance attribute of
+    that name is ever stored, no string spells it -- ``setattr`` / ``__slots__``) and every occurrence is a *load* ``<self>._p`` where
+    ``<self>`` is the (never re-bound) instance parameter of a method of the defining class or of a class of the module deriving from
+    it.  Returns the number of properties rewritten."""
+    import re
+    if foreign is None:
+        return 0
+    from .normalize import _eligible_def
+    classes = dict((st.name, st) for st in tree.body if isinstance(st, ast.ClassDef))
+    if not classes or _module_bindings(tree).get('property'):
+        return 0
+
+    def derives(name, base, seen=()):
+        if name == base:
+            return True
+        c = classes.get(name)
+        if c is None or name in seen:
+            return False
+        return any(isinstance(b, ast.Name) and derives(b.id, base, seen + (name,)) for b in c.bases)
+    parent = {}
+    for p in ast.walk(tree):
+        for c in ast.iter_child_nodes(p):
+            parent[id(c)] = p
+    spelt = set()
+    for n in ast.walk(tree):
+        if isinstance(n, ast.Constant) and isinstance(n.value, str) and len(n.value) < 200:
+            spelt.update(x for x in re.split(r'[^A-Za-z0-9_]+', n.value) if x)
+    done = 0
+    for cname, cls in sorted(classes.items()):
+        if cls.keywords or [c for c in tree.body if isinstance(c, ast.ClassDef) and c.name == cname] != [cls]:
+            continue
+        for fn in list(cls.body):
+            if not (isinstance(fn, ast.FunctionDef) and len(fn.decorator_list) == 1 and isinstance(fn.decorator_list[0], ast.Name)
+                    and fn.decorator_list[0].id == 'property'):
+                continue
+            name = fn.name
+            a = fn.args
+            if not name.startswith('_') or name.startswith('__') or name in anchors or name in spelt or foreign(name):
+                continue
+            if len(a.args) != 1 or a.posonlyargs or a.kwonlyargs or a.vararg or a.kwarg or a.defaults:
+                continue
+            fake = copy.copy(fn)
+            fake.decorator_list = []
+            if _eligible_def(fake) != 'func':
+                continue
+            uses, ok = [], True
+            for n in ast.walk(tree):
+                if n is fn:
+                    continue
+                if (isinstance(n, (ast.FunctionDef, ast.AsyncFunctionDef, ast.ClassDef)) and n.name == name) or \
+                        (isinstance(n, ast.Name) and n.id == name) or (isinstance(n, ast.arg) and n.arg == name) or \
+                        (isinstance(n, ast.alias) and name in (n.name, n.asname)) or \
+                        (isinstance(n, (ast.Global, ast.Nonlocal)) and name in n.names) or (isinstance(n, ast.keyword) and n.arg == name):
+                    ok = False
+                    break
+                if not (isinstance(n, ast.Attribute) and n.attr == name):
+                    continue
+                # the function the read sits in: a method (plain, or itself a property getter) of the class or of a subclass
+                cur = parent.get(id(n))
+                while cur is not None and not isinstance(cur, _SCOPES):
+                    cur = parent.get(id(cur))
+                holder = parent.get(id(cur)) if cur is not None else None
+                if not (isinstance(n.ctx, ast.Load) and isinstance(n.value, ast.Name) and isinstance(cur, ast.FunctionDef) and
+                        isinstance(holder, ast.ClassDef) and classes.get(holder.name) is holder and derives(holder.name, cname) and
+                        all(isinstance(d, ast.Name) and d.id == 'property' for d in cur.decorator_list) and
+                        cur.args.args and not cur.args.posonlyargs and cur.args.args[0].arg == n.value.id):
+                    ok = False
+                    break
+                me = n.value.id
+                if any((isinstance(x, ast.Name) and x.id == me and isinstance(x.ctx, (ast.Store, ast.Del))) or
+                       (isinstance(x, ast.arg) and x.arg == me and x is not cur.args.args[0]) for x in ast.walk(cur)):
+                    ok = False
+                    break
+                uses.append(n)
+            if not ok or not uses:
+                continue
+            fn.decorator_list = []
+            for n in uses:
+                p = parent[id(n)]
+                call = ast.copy_location(ast.Call(func=n, args=[], keywords=[]), n)
+                for field, val in ast.iter_fields(p):
+                    if val is n:
+                        setattr(p, field, call)
+                    elif isinstance(val, list):
+                        for i, it in enumerate(val):
+                            if it is n:
+                                val[i] = call
+                parent[id(call)] = p
+                parent[id(n)] = call
+            done += 1
+    return done
